@@ -153,7 +153,7 @@ def ev(op, n=0, out='', b=b''):
     return {'op': op, 'n': n, 'out': out, 'bytes': list(b)}
 
 
-def vbs_write_events(recs, blocked, fins=('close',), api='class', fileobj=None):
+def vbs_write_events(recs, blocked, fins=('close',), api='class', fileobj=None, peek=0):
     """Perform the writer history on the real code. fins: sequence of 'close' / 'exit'
     ('exit' = leaving a `with` block; 'close','exit' = close() inside the block then leaving it).
     Returns (events, file bytes)."""
@@ -177,10 +177,16 @@ def vbs_write_events(recs, blocked, fins=('close',), api='class', fileobj=None):
                     pass
             else:
                 w.close()
+            if peek and f.readable():
+                f.read(peek)             # a consumer looks at the finished file before the next finalisation
         for x in fins:
             events.append(ev('fin', 1 if x == 'close' else 2))
-        f.seek(0)
-        data = f.read()
+        if f.readable():
+            f.seek(0)
+            data = f.read()
+        else:
+            f.flush()
+            data = open(f.name, 'rb').read()
         events.append(ev('file', 0, '', data))
         return events, data
     if 'exit' in fins:
